@@ -40,6 +40,8 @@ def run(R):
         r7(R, m)
     if R.want("C14.R8"):
         r8(R, m)
+    if R.want("C14.R9"):
+        r9(R, m)
 
 
 def r1(R, m):
@@ -798,3 +800,39 @@ def r8(R, m):
                     "not reproduce the selected pixels" % buf,
                     desc="%s:%s scattered store into %s is preceded by zeros on every path" % (SPF, q, buf))
     R.shape(n >= 1, "C14.R8", SPF, q, "how the dense image is filled (todense(out=) or a scattered store)")
+
+
+def r9(R, m):
+    """from_data_mask makes the frame from three uses of the mask: the pixel count (sizes row / col), the coordinates (C kernel
+    mask_to_coo, which takes msk != 0 AFTER f2py has cast the array to int8) and the values (data[...]).  They select the same
+    pixels for every mask only when all three use one boolean array: with the raw mask handed to the kernel a label image used
+    as mask loses the pixels whose label is a multiple of 256 and an int8 mask with a negative entry gains one; the kernel then
+    returns its error code 4 without writing row / col, which the caller does not look at - uninitialised coordinates."""
+    R.rule("C14.R9", "from_data_mask: the pixel count, the array handed to mask_to_coo and the index of data[...] are one boolean selection "
+                     "(a comparison), not the raw mask (the kernel tests != 0 after the f2py cast to int8; Python tests > 0)")
+    q = "from_data_mask"
+    fn = m.ifunc(q)
+    maskp = fn.args.args[0].arg
+    datap = fn.args.args[1].arg
+    calls = [c for c in ast.walk(fn) if isinstance(c, ast.Call) and (pyfacts.dotted(c.func) or "").endswith("mask_to_coo") and c.args]
+    R.shape(len(calls) == 1, "C14.R9", SPF, q, "the mask_to_coo call")
+
+    def norm(e):
+        return src(pyfacts.resolved(fn, e, 3, keep=(maskp, datap))).replace(" ", "").replace("(", "").replace(")", "")
+    karg = norm(calls[0].args[0])
+    idx = [x for x in ast.walk(fn) if isinstance(x, ast.Subscript) and isinstance(x.ctx, ast.Load) and src(x.value) == datap and not isinstance(x.slice, (ast.Constant, ast.Tuple))
+           and "shape" not in src(x)]
+    R.shape(len(idx) == 1, "C14.R9", SPF, q, "the values data[<selection>]")
+    vsel = norm(idx[0].slice)
+    sums = [c for c in ast.walk(fn) if isinstance(c, ast.Call) and isinstance(c.func, ast.Attribute) and c.func.attr == "sum" and maskp in norm(c.func.value)]
+    sums += [c for c in ast.walk(fn) if isinstance(c, ast.Call) and (pyfacts.dotted(c.func) or "").split(".")[-1] in ("count_nonzero", "sum") and c.args and maskp in norm(c.args[0])
+             and not isinstance(c.func, ast.Attribute) or False]
+    R.shape(len(sums) >= 1, "C14.R9", SPF, q, "the pixel count <selection>.sum()")
+    csel = norm(sums[0].func.value if isinstance(sums[0].func, ast.Attribute) and sums[0].func.attr == "sum" and not sums[0].args else sums[0].args[0])
+    raw = karg == maskp
+    R.check(not raw, "C14.R9", SPF, calls[0].lineno, q, "mask_to_coo(%s, ...) with count %s.sum() and values data[%s]" % (karg, csel, vsel),
+            "the raw mask goes to the C kernel (which selects != 0 after the cast to int8) while the count and the values use '%s': for a label image "
+            "used as mask (a value of 256 becomes 0) or a negative entry the kernel's own count differs, it returns its error code without writing "
+            "the coordinates, and from_data_mask hands back uninitialised row / col" % csel)
+    R.check(raw or (karg == csel == vsel), "C14.R9", SPF, calls[0].lineno, q, "one selection: kernel %s, count %s, values %s" % (karg, csel, vsel),
+            "count, coordinates and values are taken with different selections")
